@@ -19,7 +19,7 @@ lock = threading.Lock()
 
 
 def lane(i):
-    wt = f"/tmp/rlane{i}"
+    wt = f"/tmp/{os.environ.get('RLANE', 'rlane')}{i}"
     subprocess.run(["git", "-C", "/repo", "worktree", "remove", "--force", wt], capture_output=True)
     subprocess.run(["git", "-C", "/repo", "worktree", "add", "--detach", wt, "HEAD", "-q"], check=True, capture_output=True)
     shutil.copy("/repo/Cargo.lock", wt)
